@@ -1,6 +1,7 @@
 import WebAuthnModel.Model.Cose
 import WebAuthnModel.Spec.Cose
 import WebAuthnModel.Proofs.CborFrame
+import WebAuthnModel.Proofs.CoseEncode
 /-
   C11 — COSE public keys are parsed, classified and re-encoded faithfully.
 -/
@@ -36,5 +37,480 @@ theorem struct_schemas :
       [("KeyType", "cbor:\"1,keyasint,omitempty\" json:\"kty\""), ("Algorithm", "cbor:\"3,keyasint,omitempty\" json:\"alg\""),
        ("[]byte", "cbor:\"-1,keyasint,omitempty\" json:\"n\""), ("[]byte", "cbor:\"-2,keyasint,omitempty\" json:\"e\"")] := by
   decide
+
+/-! #### the parsers accept exactly the supported keys -/
+
+def toClass : Key → Spec.Cose.KeyClass
+  | .ec2 a c x y => .ec2 a c x y
+  | .okp x => .okp x
+  | .rsa a n e => .rsa a n e
+
+theorem toClass_ec2 (k : Key) (a c : Int) (x y : Bytes) : .ec2 a c x y = toClass k ↔ k = .ec2 a c x y := by
+  cases k <;> simp [toClass, eq_comm]
+theorem toClass_okp (k : Key) (x : Bytes) : .okp x = toClass k ↔ k = .okp x := by
+  cases k <;> simp [toClass, eq_comm]
+theorem toClass_rsa (k : Key) (a : Int) (n e : Bytes) : .rsa a n e = toClass k ↔ k = .rsa a n e := by
+  cases k <;> simp [toClass, eq_comm]
+
+theorem lookup_isSome {β : Type} (tbl : List (Int × β)) (k : Int) :
+    (lookup tbl k).isSome = true ↔ k ∈ tbl.map (·.1) := by
+  unfold lookup
+  simp [List.find?_isSome]
+
+theorem lookup_isNone {β : Type} (tbl : List (Int × β)) (k : Int) :
+    (lookup tbl k).isNone = true ↔ k ∉ tbl.map (·.1) := by
+  rw [← lookup_isSome]
+  cases lookup tbl k <;> simp
+
+theorem exists_decode_iff {v : Value} {r' rest : Bytes}
+    (schema : List (Int × FieldKind)) (P : List (Int × FieldVal) → Prop) :
+    (∃ v' vals, some (v, r') = some (v', rest) ∧ decodeStruct schema v' = .ok vals ∧ P vals) ↔
+      r' = rest ∧ ∃ vals, decodeStruct schema v = .ok vals ∧ P vals := by
+  constructor
+  · rintro ⟨v', vals, he, hs, hp⟩
+    simp only [Option.some.injEq, Prod.mk.injEq] at he
+    obtain ⟨rfl, rfl⟩ := he
+    exact ⟨rfl, vals, hs, hp⟩
+  · rintro ⟨rfl, vals, hs, hp⟩
+    exact ⟨v, vals, rfl, hs, hp⟩
+
+theorem ec2KeyTypes_contains (i : Int) : Generated.Cose.ec2KeyTypes.contains i = true ↔ i = 2 := by
+  simp [Generated.Cose.ec2KeyTypes]
+theorem rsaKeyTypes_contains (i : Int) : Generated.Cose.rsaKeyTypes.contains i = true ↔ i = 3 := by
+  simp [Generated.Cose.rsaKeyTypes]
+theorem okpAlgs_contains (i : Int) : Generated.Cose.okpAlgs.contains i = true ↔ i = -8 := by
+  simp [Generated.Cose.okpAlgs]
+theorem okpCurves_contains (i : Int) : Generated.Cose.okpCurves.contains i = true ↔ i = 6 := by
+  simp [Generated.Cose.okpCurves]
+theorem ec2Curves_isNone (c : Int) :
+    (lookup Generated.Cose.ec2Curves c).isNone = true ↔ ¬ (c = 1 ∨ c = 2 ∨ c = 3) := by
+  rw [lookup_isNone]; simp [Generated.Cose.ec2Curves]
+theorem ecdsaVerifyTable_isNone (a : Int) :
+    (lookup Generated.Cose.ecdsaVerifyTable a).isNone = true ↔ ¬ (a = -7 ∨ a = -35 ∨ a = -36) := by
+  rw [lookup_isNone]; simp [Generated.Cose.ecdsaVerifyTable]; omega
+theorem rsaVerifyTable_isNone (a : Int) :
+    (lookup Generated.Cose.rsaVerifyTable a).isNone = true ↔
+      ¬ (a = -65535 ∨ a = -257 ∨ a = -258 ∨ a = -259 ∨ a = -37 ∨ a = -38 ∨ a = -39) := by
+  rw [lookup_isNone]; simp [Generated.Cose.rsaVerifyTable]; omega
+
+theorem ec2_body_iff (vals : List (Int × FieldVal)) (r' rest : Bytes) (k : Key) :
+    (if !(Generated.Cose.ec2KeyTypes.contains (getInt vals 1)) then ParseRes.err .unsupportedKeyType
+      else if (lookup Generated.Cose.ec2Curves (getInt vals (-1))).isNone then .err .unsupportedCurve
+      else if (lookup Generated.Cose.ecdsaVerifyTable (getInt vals 3)).isNone then .err .unsupportedAlgorithm
+      else .ok (.ec2 (getInt vals 3) (getInt vals (-1)) (getBytes vals (-2)) (getBytes vals (-3))) r') = .ok k rest ↔
+    r' = rest ∧ getInt vals 1 = 2 ∧
+        Spec.Cose.classify 2 (getInt vals 3) (getInt vals (-1)) [] (getBytes vals (-2)) (getBytes vals (-3)) = some (toClass k) := by
+  simp only [Bool.not_eq_true', Bool.eq_false_iff, ne_eq, ec2KeyTypes_contains, ec2Curves_isNone, ecdsaVerifyTable_isNone,
+    Spec.Cose.classify, Spec.Cose.ES256, Spec.Cose.ES384, Spec.Cose.ES512, if_true]
+  by_cases c1 : getInt vals 1 = 2
+  · by_cases c2 : (getInt vals (-1) = 1 ∨ getInt vals (-1) = 2 ∨ getInt vals (-1) = 3)
+    · by_cases c3 : (getInt vals 3 = -7 ∨ getInt vals 3 = -35 ∨ getInt vals 3 = -36)
+      · simp only [c1, c2, c3, not_true, if_true, if_false, and_true, true_and, Option.some.injEq,
+          toClass_ec2, ParseRes.ok.injEq]
+        constructor
+        · rintro ⟨rfl, rfl⟩; exact ⟨rfl, rfl⟩
+        · rintro ⟨rfl, rfl⟩; exact ⟨rfl, rfl⟩
+      · simp [c1, c2, c3]
+    · simp [c1, c2]
+  · simp [c1]
+
+/-- EC2 parser: accepts exactly when the members classify as a supported EC2 key, and the key returned carries exactly the encoded members -/
+theorem parseEC2_iff (raw : Bytes) (k : Key) (rest : Bytes) :
+    parseEC2 raw = .ok k rest ↔
+      ∃ v vals, decode raw = some (v, rest) ∧ decodeStruct ec2Schema v = .ok vals ∧ getInt vals 1 = 2 ∧
+        Spec.Cose.classify 2 (getInt vals 3) (getInt vals (-1)) [] (getBytes vals (-2)) (getBytes vals (-3)) = some (toClass k) := by
+  unfold parseEC2
+  cases hd : decode raw with
+  | none => simp
+  | some vr =>
+    obtain ⟨v, r'⟩ := vr
+    rw [exists_decode_iff]
+    simp only []
+    cases hs : decodeStruct ec2Schema v with
+    | unmodelled => simp
+    | err => simp
+    | ok vals =>
+      simp only [StructRes.ok.injEq, exists_eq_left']
+      exact ec2_body_iff vals r' rest k
+
+theorem okp_body_iff (vals : List (Int × FieldVal)) (r' rest : Bytes) (k : Key) :
+    (let alg := if getInt vals 3 = 0 then -8 else getInt vals 3
+      if getInt vals 1 ≠ 1 then ParseRes.err .invalidKey
+      else if !(Generated.Cose.okpAlgs.contains alg) then .err .unsupportedAlgorithm
+      else if !(Generated.Cose.okpCurves.contains (getInt vals (-1))) then .err .unsupportedCurve
+      else if (getBytes vals (-2)).length ≠ 32 then .err .invalidKey
+      else .ok (.okp (getBytes vals (-2))) r') = .ok k rest ↔
+    r' = rest ∧ getInt vals 1 = 1 ∧
+        Spec.Cose.classify 1 (getInt vals 3) (getInt vals (-1)) [] (getBytes vals (-2)) [] = some (toClass k) := by
+  have ha : (if getInt vals 3 = 0 then (-8 : Int) else getInt vals 3) = -8 ↔ (getInt vals 3 = -8 ∨ getInt vals 3 = 0) := by
+    split <;> omega
+  simp only [Bool.not_eq_true', Bool.eq_false_iff, ne_eq, okpAlgs_contains, okpCurves_contains, ha,
+    Spec.Cose.classify, Spec.Cose.EdDSA, if_true]
+  by_cases c1 : getInt vals 1 = 1
+  · by_cases c2 : (getInt vals 3 = -8 ∨ getInt vals 3 = 0)
+    · by_cases c3 : getInt vals (-1) = 6
+      · by_cases c4 : (getBytes vals (-2)).length = 32
+        · simp [c1, c2, c3, c4]
+          rw [toClass_okp]
+          constructor
+          · rintro ⟨h1, h2⟩; exact ⟨h2, h1.symm⟩
+          · rintro ⟨h1, h2⟩; exact ⟨h2.symm, h1⟩
+        · simp [c1, c2, c3, c4]
+      · simp [c1, c2, c3]
+    · simp [c1, c2]
+  · simp [c1]
+
+theorem parseOKP_iff (raw : Bytes) (k : Key) (rest : Bytes) :
+    parseOKP raw = .ok k rest ↔
+      ∃ v vals, decode raw = some (v, rest) ∧ decodeStruct okpSchema v = .ok vals ∧ getInt vals 1 = 1 ∧
+        Spec.Cose.classify 1 (getInt vals 3) (getInt vals (-1)) [] (getBytes vals (-2)) [] = some (toClass k) := by
+  unfold parseOKP
+  cases hd : decode raw with
+  | none => simp
+  | some vr =>
+    obtain ⟨v, r'⟩ := vr
+    rw [exists_decode_iff]
+    simp only []
+    cases hs : decodeStruct okpSchema v with
+    | unmodelled => simp
+    | err => simp
+    | ok vals =>
+      simp only [StructRes.ok.injEq, exists_eq_left']
+      exact okp_body_iff vals r' rest k
+
+theorem rsa_body_iff (vals : List (Int × FieldVal)) (r' rest : Bytes) (k : Key) :
+    (if !(Generated.Cose.rsaKeyTypes.contains (getInt vals 1)) then ParseRes.err .unsupportedKeyType
+      else if !exponentFits (getBytes vals (-2)) then .err .invalidKey
+      else if (lookup Generated.Cose.rsaVerifyTable (getInt vals 3)).isNone then .err .unsupportedAlgorithm
+      else .ok (.rsa (getInt vals 3) (getBytes vals (-1)) (getBytes vals (-2))) r') = .ok k rest ↔
+    r' = rest ∧ getInt vals 1 = 3 ∧
+        Spec.Cose.classify 3 (getInt vals 3) 0 (getBytes vals (-1)) (getBytes vals (-2)) [] = some (toClass k) := by
+  have he : exponentFits (getBytes vals (-2)) = true ↔ Bytes.beNat (getBytes vals (-2)) < 2 ^ 63 := by
+    simp [exponentFits]
+  simp only [Bool.not_eq_true', Bool.eq_false_iff, ne_eq, rsaKeyTypes_contains, rsaVerifyTable_isNone, he,
+    Spec.Cose.classify, Spec.Cose.RS1, Spec.Cose.RS256, Spec.Cose.RS384, Spec.Cose.RS512, Spec.Cose.PS256,
+    Spec.Cose.PS384, Spec.Cose.PS512, if_true]
+  by_cases c1 : getInt vals 1 = 3
+  · by_cases c2 : Bytes.beNat (getBytes vals (-2)) < 2 ^ 63
+    · by_cases c3 : (getInt vals 3 = -65535 ∨ getInt vals 3 = -257 ∨ getInt vals 3 = -258 ∨ getInt vals 3 = -259 ∨
+          getInt vals 3 = -37 ∨ getInt vals 3 = -38 ∨ getInt vals 3 = -39)
+      · simp [c1, c2, c3]
+        rw [toClass_rsa]
+        constructor
+        · rintro ⟨h1, h2⟩; exact ⟨h2, h1.symm⟩
+        · rintro ⟨h1, h2⟩; exact ⟨h2.symm, h1⟩
+      · simp [c1, c2, c3]
+    · simp [c1, c2]
+  · simp [c1]
+
+theorem parseRSA_iff (raw : Bytes) (k : Key) (rest : Bytes) :
+    parseRSA raw = .ok k rest ↔
+      ∃ v vals, decode raw = some (v, rest) ∧ decodeStruct rsaSchema v = .ok vals ∧ getInt vals 1 = 3 ∧
+        Spec.Cose.classify 3 (getInt vals 3) 0 (getBytes vals (-1)) (getBytes vals (-2)) [] = some (toClass k) := by
+  unfold parseRSA
+  cases hd : decode raw with
+  | none => simp
+  | some vr =>
+    obtain ⟨v, r'⟩ := vr
+    rw [exists_decode_iff]
+    simp only []
+    cases hs : decodeStruct rsaSchema v with
+    | unmodelled => simp
+    | err => simp
+    | ok vals =>
+      simp only [StructRes.ok.injEq, exists_eq_left']
+      exact rsa_body_iff vals r' rest k
+
+/-- what the dispatching parser accepts is a supported key, with nothing after it -/
+def Supported : Key → Prop
+  | .ec2 alg crv _ _ => (crv = 1 ∨ crv = 2 ∨ crv = 3) ∧ (alg = -7 ∨ alg = -35 ∨ alg = -36)
+  | .okp x => x.length = 32
+  | .rsa alg _ e => (alg = -65535 ∨ alg = -257 ∨ alg = -258 ∨ alg = -259 ∨ alg = -37 ∨ alg = -38 ∨ alg = -39) ∧ Bytes.beNat e < 2 ^ 63
+
+theorem supported_of_classify (kty alg crv : Int) (m1 m2 m3 : Bytes) (k : Key)
+    (h : Spec.Cose.classify kty alg crv m1 m2 m3 = some (toClass k)) : Supported k := by
+  unfold Spec.Cose.classify at h
+  simp only [Spec.Cose.ES256, Spec.Cose.ES384, Spec.Cose.ES512, Spec.Cose.EdDSA, Spec.Cose.RS1, Spec.Cose.RS256,
+    Spec.Cose.RS384, Spec.Cose.RS512, Spec.Cose.PS256, Spec.Cose.PS384, Spec.Cose.PS512] at h
+  split at h
+  · by_cases hc : (crv = 1 ∨ crv = 2 ∨ crv = 3) ∧ (alg = -7 ∨ alg = -35 ∨ alg = -36)
+    · simp only [hc, and_self, if_true, Option.some.injEq] at h
+      rw [toClass_ec2] at h
+      subst h
+      exact hc
+    · simp [hc] at h
+  · split at h
+    · by_cases hc : (alg = -8 ∨ alg = 0) ∧ crv = 6 ∧ List.length m2 = 32
+      · simp only [hc, and_self, if_true, Option.some.injEq] at h
+        rw [toClass_okp] at h
+        subst h
+        exact hc.2.2
+      · simp [hc] at h
+    · split at h
+      · by_cases hc : (alg = -65535 ∨ alg = -257 ∨ alg = -258 ∨ alg = -259 ∨ alg = -37 ∨ alg = -38 ∨ alg = -39) ∧
+            Bytes.beNat m2 < 2 ^ 63
+        · simp only [hc, and_self, if_true, Option.some.injEq] at h
+          rw [toClass_rsa] at h
+          subst h
+          exact hc
+        · simp [hc] at h
+      · cases h
+
+/-- the type-specific parsers return the bytes following the key -/
+theorem parseEC2_remaining (raw : Bytes) (k : Key) (rest : Bytes) (h : parseEC2 raw = .ok k rest) :
+    ∃ p, p ≠ [] ∧ raw = p ++ rest := by
+  obtain ⟨v, vals, hd, _⟩ := (parseEC2_iff raw k rest).1 h
+  exact decode_consumes raw v rest hd
+theorem parseOKP_remaining (raw : Bytes) (k : Key) (rest : Bytes) (h : parseOKP raw = .ok k rest) :
+    ∃ p, p ≠ [] ∧ raw = p ++ rest := by
+  obtain ⟨v, vals, hd, _⟩ := (parseOKP_iff raw k rest).1 h
+  exact decode_consumes raw v rest hd
+theorem parseRSA_remaining (raw : Bytes) (k : Key) (rest : Bytes) (h : parseRSA raw = .ok k rest) :
+    ∃ p, p ≠ [] ∧ raw = p ++ rest := by
+  obtain ⟨v, vals, hd, _⟩ := (parseRSA_iff raw k rest).1 h
+  exact decode_consumes raw v rest hd
+
+theorem parse_ok_supported (raw : Bytes) (k : Key) (rest : Bytes) (h : parse raw = .ok k rest) :
+    rest = [] ∧ Supported k := by
+  unfold parse at h
+  cases hd : decode raw with
+  | none => rw [hd] at h; cases h
+  | some vr =>
+    obtain ⟨v, r'⟩ := vr
+    rw [hd] at h
+    simp only [] at h
+    by_cases hr : r' = []
+    · subst hr
+      simp only [ne_eq, not_true, if_false] at h
+      have key : ∀ v' : Value, decode raw = some (v', rest) → rest = [] := by
+        intro v' hd'
+        rw [hd] at hd'
+        simp only [Option.some.injEq, Prod.mk.injEq] at hd'
+        exact hd'.2.symm
+      split at h
+      · cases h
+      · cases h
+      · split at h
+        · obtain ⟨v', vals, hd', _, _, hc⟩ := (parseEC2_iff raw k rest).1 h
+          exact ⟨key v' hd', supported_of_classify _ _ _ _ _ _ _ hc⟩
+        · obtain ⟨v', vals, hd', _, _, hc⟩ := (parseOKP_iff raw k rest).1 h
+          exact ⟨key v' hd', supported_of_classify _ _ _ _ _ _ _ hc⟩
+        · obtain ⟨v', vals, hd', _, _, hc⟩ := (parseRSA_iff raw k rest).1 h
+          exact ⟨key v' hd', supported_of_classify _ _ _ _ _ _ _ hc⟩
+        · cases h
+    · simp only [ne_eq, hr, not_false_iff, if_true] at h
+      cases h
+
+/-- trailing data after the key is rejected by the dispatching parser as an invalid key -/
+theorem parse_trailing_rejected (raw : Bytes) (v : Value) (rest : Bytes) (hd : decode raw = some (v, rest)) (hr : rest ≠ []) :
+    parse raw = .err .invalidKey := by
+  unfold parse
+  rw [hd]
+  simp only [ne_eq, hr, not_false_iff, if_true]
+
+/-- non-CBOR input is rejected as an invalid key -/
+theorem parse_malformed_rejected (raw : Bytes) (hd : decode raw = none) : parse raw = .err .invalidKey := by
+  unfold parse
+  rw [hd]
+
+/-- a supported key verifies under some standard scheme (key kind and algorithm are compatible) -/
+theorem supported_has_scheme (k : Key) (h : Supported k) : (verifyParams k).isSome = true := by
+  cases k with
+  | ec2 alg crv x y =>
+    have := (ecdsaVerifyTable_isNone alg)
+    cases hl : lookup Generated.Cose.ecdsaVerifyTable alg with
+    | none => rw [hl] at this; exact absurd h.2 (this.1 rfl)
+    | some _ => simp [verifyParams, hl]
+  | okp x => rfl
+  | rsa alg n e =>
+    have := (rsaVerifyTable_isNone alg)
+    cases hl : lookup Generated.Cose.rsaVerifyTable alg with
+    | none => rw [hl] at this; exact absurd h.1 (this.1 rfl)
+    | some _ => simp [verifyParams, hl]
+
+/-- the numbers handed to the crypto library are the encoded big-endian numbers -/
+theorem beNat_stripZeros (b : Bytes) : Bytes.beNat (Bytes.stripZeros b) = Bytes.beNat b := by
+  induction b with
+  | nil => rfl
+  | cons x xs ih =>
+    unfold Bytes.stripZeros
+    split
+    · rename_i hx
+      subst hx
+      rw [ih]
+      simp [Bytes.beNat, List.foldl]
+    · rfl
+
+/-! #### marshal then parse -/
+
+def normalize : Key → Key
+  | .ec2 a c x y => .ec2 a c (Bytes.stripZeros x) (Bytes.stripZeros y)
+  | .okp x => .okp x
+  | .rsa a n e => .rsa a (Bytes.stripZeros n) (Bytes.stripZeros e)
+/-- byte-string members shorter than 2^32 bytes (so that `encHead` is the canonical CBOR head; lengths ≥ 2^64 are not encodable at all) -/
+def SmallKey : Key → Prop
+  | .ec2 _ _ x y => x.length < 2 ^ 32 ∧ y.length < 2 ^ 32
+  | .okp _ => True
+  | .rsa _ n e => n.length < 2 ^ 32 ∧ e.length < 2 ^ 32
+
+theorem parse_eq_ec2 (raw : Bytes) (v : Value) (vals : List (Int × FieldVal)) (hd : decode raw = some (v, []))
+    (hs : decodeStruct baseSchema v = .ok vals) (h1 : getInt vals 1 = 2) : parse raw = parseEC2 raw := by
+  unfold parse
+  rw [hd]
+  simp only [ne_eq, not_true, if_false]
+  rw [hs]
+  simp only []
+  rw [h1]
+  rfl
+theorem parse_eq_okp (raw : Bytes) (v : Value) (vals : List (Int × FieldVal)) (hd : decode raw = some (v, []))
+    (hs : decodeStruct baseSchema v = .ok vals) (h1 : getInt vals 1 = 1) : parse raw = parseOKP raw := by
+  unfold parse
+  rw [hd]
+  simp only [ne_eq, not_true, if_false]
+  rw [hs]
+  simp only []
+  rw [h1]
+  rfl
+theorem parse_eq_rsa (raw : Bytes) (v : Value) (vals : List (Int × FieldVal)) (hd : decode raw = some (v, []))
+    (hs : decodeStruct baseSchema v = .ok vals) (h1 : getInt vals 1 = 3) : parse raw = parseRSA raw := by
+  unfold parse
+  rw [hd]
+  simp only [ne_eq, not_true, if_false]
+  rw [hs]
+  simp only []
+  rw [h1]
+  rfl
+
+theorem ec2_struct (alg crv : Int) (x y : Bytes) (ha : SmallInt alg) (hc : SmallInt crv) (ha0 : alg ≠ 0) (hc0 : crv ≠ 0) :
+    ∃ vals, decodeStruct ec2Schema (.map (memberVals [(1, .int 2), (3, .int alg), (-1, .int crv), (-2, .bytes x), (-3, .bytes y)])) = .ok vals
+      ∧ getInt vals 1 = 2 ∧ getInt vals 3 = alg ∧ getInt vals (-1) = crv ∧ getBytes vals (-2) = x ∧ getBytes vals (-3) = y := by
+  by_cases hx : x = [] <;> by_cases hy : y = [] <;>
+  simp [memberVals, hx, hy, ha0, hc0, valOfInt_1, valOfInt_2, valOfInt_3, valOfInt_m1, valOfInt_m2, valOfInt_m3,
+    decodeStruct, structEntries, structEntry, intKey, schemaKind, ec2Schema, decodeField_int _ ha, decodeField_int _ hc,
+    decodeField_uint8, decodeField_bytes, getInt, getBytes]
+
+theorem ec2_struct_base (alg crv : Int) (x y : Bytes) (ha : SmallInt alg) (ha0 : alg ≠ 0) (hc0 : crv ≠ 0) :
+    ∃ vals, decodeStruct baseSchema (.map (memberVals [(1, .int 2), (3, .int alg), (-1, .int crv), (-2, .bytes x), (-3, .bytes y)])) = .ok vals
+      ∧ getInt vals 1 = 2 := by
+  by_cases hx : x = [] <;> by_cases hy : y = [] <;>
+  simp [memberVals, hx, hy, ha0, hc0, valOfInt_1, valOfInt_2, valOfInt_3, valOfInt_m1, valOfInt_m2, valOfInt_m3,
+    decodeStruct, structEntries, structEntry, intKey, schemaKind, baseSchema, decodeField_int _ ha,
+    decodeField_uint8, getInt]
+
+theorem marshal_parse_roundtrip_ec2 (alg crv : Int) (x y : Bytes) (hs : Supported (.ec2 alg crv x y))
+    (hk : SmallKey (.ec2 alg crv x y)) :
+    parse (marshal (.ec2 alg crv x y)) = .ok (.ec2 alg crv (Bytes.stripZeros x) (Bytes.stripZeros y)) [] := by
+  obtain ⟨hc, ha⟩ := hs
+  obtain ⟨hx, hy⟩ := hk
+  have hx' := stripZeros_length_le x
+  have hy' := stripZeros_length_le y
+  have sa : SmallInt alg := by unfold SmallInt; omega
+  have sc : SmallInt crv := by unfold SmallInt; omega
+  have hd := decode_encStruct
+    [(1, .int 2), (3, .int alg), (-1, .int crv), (-2, .bytes (Bytes.stripZeros x)), (-3, .bytes (Bytes.stripZeros y))]
+    (by
+      intro m hm
+      simp only [List.mem_cons, List.not_mem_nil, or_false] at hm
+      rcases hm with rfl | rfl | rfl | rfl | rfl <;> simp only [MemOK] <;> refine ⟨by unfold SmallInt; omega, ?_⟩
+      · unfold SmallInt; omega
+      · exact sa
+      · exact sc
+      · omega
+      · omega)
+    (by simp)
+  obtain ⟨vals0, hs0, h0⟩ := ec2_struct_base alg crv (Bytes.stripZeros x) (Bytes.stripZeros y) sa (by omega) (by omega)
+  obtain ⟨vals, hs1, h1, h3, hm1, hm2, hm3⟩ := ec2_struct alg crv (Bytes.stripZeros x) (Bytes.stripZeros y) sa sc (by omega) (by omega)
+  unfold marshal
+  rw [parse_eq_ec2 _ _ _ hd hs0 h0, parseEC2_iff]
+  refine ⟨_, vals, hd, hs1, h1, ?_⟩
+  rw [h3, hm1, hm2, hm3]
+  have ha' : alg = Spec.Cose.ES256 ∨ alg = Spec.Cose.ES384 ∨ alg = Spec.Cose.ES512 := ha
+  simp [Spec.Cose.classify, hc, ha', toClass]
+
+theorem okp_struct (x : Bytes) (hx : x ≠ []) :
+    ∃ vals, decodeStruct okpSchema (.map (memberVals [(1, .int 1), (3, .int (-8)), (-1, .int 6), (-2, .bytes x)])) = .ok vals
+      ∧ getInt vals 1 = 1 ∧ getInt vals 3 = -8 ∧ getInt vals (-1) = 6 ∧ getBytes vals (-2) = x := by
+  simp [memberVals, hx, valOfInt_1, valOfInt_3, valOfInt_6, valOfInt_m1, valOfInt_m2, valOfInt_m8,
+    decodeStruct, structEntries, structEntry, intKey, schemaKind, okpSchema, decodeField, getInt, getBytes]
+
+theorem okp_struct_base (x : Bytes) (hx : x ≠ []) :
+    ∃ vals, decodeStruct baseSchema (.map (memberVals [(1, .int 1), (3, .int (-8)), (-1, .int 6), (-2, .bytes x)])) = .ok vals
+      ∧ getInt vals 1 = 1 := by
+  simp [memberVals, hx, valOfInt_1, valOfInt_3, valOfInt_6, valOfInt_m1, valOfInt_m2, valOfInt_m8,
+    decodeStruct, structEntries, structEntry, intKey, schemaKind, baseSchema, decodeField, getInt]
+
+theorem marshal_parse_roundtrip_okp (x : Bytes) (hs : Supported (.okp x)) :
+    parse (marshal (.okp x)) = .ok (.okp x) [] := by
+  have hl : x.length = 32 := hs
+  have hx : x ≠ [] := by intro h; rw [h] at hl; simp at hl
+  have hd := decode_encStruct [(1, .int 1), (3, .int (-8)), (-1, .int 6), (-2, .bytes x)]
+    (by
+      intro m hm
+      simp only [List.mem_cons, List.not_mem_nil, or_false] at hm
+      rcases hm with rfl | rfl | rfl | rfl <;> simp only [MemOK] <;> refine ⟨by unfold SmallInt; omega, ?_⟩
+      · unfold SmallInt; omega
+      · unfold SmallInt; omega
+      · unfold SmallInt; omega
+      · omega)
+    (by simp)
+  obtain ⟨vals0, hs0, h0⟩ := okp_struct_base x hx
+  obtain ⟨vals, hs1, h1, h3, hm1, hm2⟩ := okp_struct x hx
+  unfold marshal
+  rw [parse_eq_okp _ _ _ hd hs0 h0, parseOKP_iff]
+  refine ⟨_, vals, hd, hs1, h1, ?_⟩
+  rw [h3, hm1, hm2]
+  simp [Spec.Cose.classify, Spec.Cose.EdDSA, hl, toClass]
+
+theorem rsa_struct (alg : Int) (n e : Bytes) (ha : SmallInt alg) (ha0 : alg ≠ 0) :
+    ∃ vals, decodeStruct rsaSchema (.map (memberVals [(1, .int 3), (3, .int alg), (-1, .bytes n), (-2, .bytes e)])) = .ok vals
+      ∧ getInt vals 1 = 3 ∧ getInt vals 3 = alg ∧ getBytes vals (-1) = n ∧ getBytes vals (-2) = e := by
+  by_cases hn : n = [] <;> by_cases he : e = [] <;>
+  simp [memberVals, hn, he, ha0, valOfInt_1, valOfInt_3, valOfInt_m1, valOfInt_m2,
+    decodeStruct, structEntries, structEntry, intKey, schemaKind, rsaSchema, decodeField_int _ ha,
+    decodeField_uint8, decodeField_bytes, getInt, getBytes]
+
+theorem rsa_struct_base (alg : Int) (n e : Bytes) (ha : SmallInt alg) (ha0 : alg ≠ 0) :
+    ∃ vals, decodeStruct baseSchema (.map (memberVals [(1, .int 3), (3, .int alg), (-1, .bytes n), (-2, .bytes e)])) = .ok vals
+      ∧ getInt vals 1 = 3 := by
+  by_cases hn : n = [] <;> by_cases he : e = [] <;>
+  simp [memberVals, hn, he, ha0, valOfInt_1, valOfInt_3, valOfInt_m1, valOfInt_m2,
+    decodeStruct, structEntries, structEntry, intKey, schemaKind, baseSchema, decodeField_int _ ha,
+    decodeField_uint8, getInt]
+
+theorem marshal_parse_roundtrip_rsa (alg : Int) (n e : Bytes) (hs : Supported (.rsa alg n e))
+    (hk : SmallKey (.rsa alg n e)) :
+    parse (marshal (.rsa alg n e)) = .ok (.rsa alg (Bytes.stripZeros n) (Bytes.stripZeros e)) [] := by
+  obtain ⟨ha, he⟩ := hs
+  obtain ⟨hn, he2⟩ := hk
+  have hn' := stripZeros_length_le n
+  have he' := stripZeros_length_le e
+  have sa : SmallInt alg := by unfold SmallInt; omega
+  have hd := decode_encStruct
+    [(1, .int 3), (3, .int alg), (-1, .bytes (Bytes.stripZeros n)), (-2, .bytes (Bytes.stripZeros e))]
+    (by
+      intro m hm
+      simp only [List.mem_cons, List.not_mem_nil, or_false] at hm
+      rcases hm with rfl | rfl | rfl | rfl <;> simp only [MemOK] <;> refine ⟨by unfold SmallInt; omega, ?_⟩
+      · unfold SmallInt; omega
+      · exact sa
+      · omega
+      · omega)
+    (by simp)
+  obtain ⟨vals0, hs0, h0⟩ := rsa_struct_base alg (Bytes.stripZeros n) (Bytes.stripZeros e) sa (by omega)
+  obtain ⟨vals, hs1, h1, h3, hm1, hm2⟩ := rsa_struct alg (Bytes.stripZeros n) (Bytes.stripZeros e) sa (by omega)
+  unfold marshal
+  rw [parse_eq_rsa _ _ _ hd hs0 h0, parseRSA_iff]
+  refine ⟨_, vals, hd, hs1, h1, ?_⟩
+  rw [h3, hm1, hm2]
+  have ha' : alg = Spec.Cose.RS1 ∨ alg = Spec.Cose.RS256 ∨ alg = Spec.Cose.RS384 ∨ alg = Spec.Cose.RS512 ∨
+      alg = Spec.Cose.PS256 ∨ alg = Spec.Cose.PS384 ∨ alg = Spec.Cose.PS512 := ha
+  simp [Spec.Cose.classify, ha', toClass, beNat_stripZeros, he]
+
+/-- Marshal then parse returns an equal key (magnitudes in `big.Int.Bytes` normal form). -/
+theorem marshal_parse_roundtrip (k : Key) (hs : Supported k) (hk : SmallKey k) : parse (marshal k) = .ok (normalize k) [] := by
+  cases k with
+  | ec2 alg crv x y => exact marshal_parse_roundtrip_ec2 alg crv x y hs hk
+  | okp x => exact marshal_parse_roundtrip_okp x hs
+  | rsa alg n e => exact marshal_parse_roundtrip_rsa alg n e hs hk
 
 end WebAuthn.C11
